@@ -285,10 +285,14 @@ class C07(Prop):
                 res.fail(("history-dependent-result", step[0]),
                          "step %d %r after %r:\n reused validator: %r\n fresh validator:  %r" % (
                              n, step, steps[:n], str(got)[:300], str(want)[:300]))
-            if v.resolver.resolution_scope != scope0 or impl.stack_depth(v.resolver) != depth0:
+            try:
+                scope_now = v.resolver.resolution_scope
+            except IndexError:          # nothing left on the stack at all
+                scope_now = "<no scope left>"
+            if scope_now != scope0 or impl.stack_depth(v.resolver) != depth0:
                 res.fail(("scope-not-restored", step[0]),
                          "after step %d %r (history %r): resolution_scope=%r stack=%r, initially %r" % (
-                             n, step, steps[:n], v.resolver.resolution_scope, getattr(v.resolver, "_scopes_stack", "?"), scope0))
+                             n, step, steps[:n], scope_now, getattr(v.resolver, "_scopes_stack", "?"), scope0))
                 return res
             if impl.cj(instances) != snap_inst:
                 res.fail(("instance-modified", step[0]), "step %d %r" % (n, step))
